@@ -149,10 +149,23 @@ def diff_text(maxlen):
         """
         if not (0 <= ti < len(TAGS)) or len(v) > maxlen:
             return True
+        ascii_only = True
         for ch in v:
             if ord(ch) > 127:
-                return True         # non-ASCII text cannot be encoded at all: C01 known finding
+                ascii_only = False
         tag = TAGS[ti]
+        if not ascii_only:
+            # On this tree non-ASCII text cannot be encoded at all (struct.error: the C01 known finding),
+            # so nothing is emitted and C02 has nothing to say; but IF bytes are emitted they must be the
+            # UTF-8 encoding with a byte-counted length.
+            if len(v) > 2 or ti != 0:
+                return True
+            import struct as _struct
+            try:
+                b = _enc(primitives.TextString(v, tag=tag))
+            except (_struct.error, TypeError, ValueError):
+                return True
+            return bytes(b) == R.enc_text(tag.value, v)
         b = _enc(primitives.TextString(v, tag=tag))
         reach()
         for n in range(maxlen + 1):
